@@ -1,2 +1,325 @@
-(* Proofs/StreamProofsB.v *)
+(* Proofs/StreamProofsB.v — C06: delivery configurations and CR LF line
+   terminators for the five formats. *)
+From Coq Require Import String.
 From Bio Require Import Base.
+From Bio.Model Require Fasta Fastq Sam Bed Newick.
+From Bio.Model Require Import Stream.
+From Bio.Spec Require FastaSpec FastqSpec SamSpec BedSpec NewickSpec.
+From Bio.Proofs Require FastaProofs FastaProofsB FastaProofsC FastqProofs FastqProofsB
+  SamProofs SamProofsB SamProofsC BedProofs BedProofsB BedProofsC
+  NewickProofs NewickProofsB NewickProofsC.
+From Bio.Proofs Require Import StreamProofs.
+Open Scope N_scope.
+
+(* ================================================================== *)
+(* schedules and files: definitional on the model                       *)
+
+Lemma schedule_irrelevant {R : Type} (dec : bytes -> term -> R) cs cs' t :
+  concat cs = concat cs' -> dec (of_schedule cs) t = dec (of_schedule cs') t.
+Proof. unfold of_schedule. now intros ->. Qed.
+
+Lemma file_eq_reader {R : Type} (e : R) gz (dec : bytes -> term -> R) w :
+  file_run e true gz dec w = dec w TEOF.
+Proof. unfold file_run. now destruct gz. Qed.
+
+Lemma file_open_error {R : Type} (e : R) gz (dec : bytes -> term -> R) w :
+  file_run e false gz dec w = e.
+Proof. reflexivity. Qed.
+
+Lemma file_gz_eq_plain {R : Type} (e : R) opened (dec : bytes -> term -> R) w :
+  file_run e opened true dec w = file_run e opened false dec w.
+Proof. reflexivity. Qed.
+
+(* ================================================================== *)
+(* FASTA                                                                *)
+
+Lemma clean_concat_pieces bad cs : clean bad (concat cs) -> Forall (clean bad) cs.
+Proof.
+  induction cs as [|c cs IH]; intro H; [constructor|].
+  cbn [concat] in H. apply Forall_app in H as [A B]. constructor; [exact A | exact (IH B)].
+Qed.
+
+Lemma crlf_write_fasta r : FastaSpec.fa_ok r ->
+  crlf (Fasta.write r) = FastaSpec.write_nl [CR; LF] r.
+Proof.
+  intros [Hn Hs]. rewrite FastaProofsC.write_is_write_nl. unfold FastaSpec.write_nl.
+  change (crlf (Fasta.GT :: ?x)) with (Fasta.GT :: crlf x).
+  f_equal. rewrite !crlf_app, crlf_concat, map_map.
+  rewrite (crlf_nolf (Fasta.name r)) by (apply (clean_not_in _ _ _ Hn); right; now left).
+  f_equal. f_equal. f_equal.
+  apply map_ext_in. intros c Hc. rewrite crlf_app. f_equal.
+  apply crlf_nolf.
+  pose proof (FastaProofs.chunks_concat (Fasta.seq r)) as E.
+  rewrite <- E in Hs. apply clean_concat_pieces in Hs. rewrite Forall_forall in Hs.
+  apply (clean_not_in _ _ _ (Hs c Hc)). right. now left.
+Qed.
+
+Lemma crlf_fasta_file rs : Forall FastaSpec.fa_ok rs ->
+  crlf (fasta_file rs) = concat (map (FastaSpec.write_nl [CR; LF]) rs).
+Proof.
+  intro H. unfold fasta_file. rewrite crlf_concat, map_map. f_equal.
+  apply map_ext_in. intros r Hr. apply crlf_write_fasta. rewrite Forall_forall in H. now apply H.
+Qed.
+
+Lemma crlf_fasta rs : Forall FastaSpec.fa_ok rs ->
+  Fasta.decode (crlf (fasta_file rs)) TEOF = Fasta.decode (fasta_file rs) TEOF.
+Proof.
+  intro H. rewrite (crlf_fasta_file rs H), (FastaProofsC.crlf_roundtrip rs H).
+  unfold fasta_file. now rewrite (FastaProofsC.write_read_roundtrip rs H).
+Qed.
+
+Lemma crlf_fasta_records rs : Forall FastaSpec.fa_ok rs ->
+  Fasta.decode (crlf (fasta_file rs)) TEOF = map Rec rs.
+Proof.
+  intro H. now rewrite (crlf_fasta_file rs H), (FastaProofsC.crlf_roundtrip rs H).
+Qed.
+
+(* ================================================================== *)
+(* FASTQ                                                                *)
+
+(* any text without CR, either terminal condition *)
+Lemma crlf_fastq_any s t : ~ In CR s -> Fastq.decode (crlf s) t = Fastq.decode s t.
+Proof. intro H. unfold Fastq.decode. now rewrite (scan_tokens_crlf s H). Qed.
+
+Lemma fastq_write_nocr r : FastqSpec.fq_ok r -> ~ In CR (Fastq.write r).
+Proof.
+  intros (Hn & Hs & Hq & _). unfold Fastq.write.
+  pose proof (FastqProofs.field_ok_no_cr _ Hn) as A.
+  pose proof (FastqProofs.field_ok_no_cr _ Hs) as B.
+  pose proof (FastqProofs.field_ok_no_cr _ Hq) as C.
+  intro Hin. destruct Hin as [E|Hin]; [discriminate|].
+  apply in_app_or in Hin as [Hin|Hin]; [now apply A|].
+  destruct Hin as [E|Hin]; [discriminate|].
+  apply in_app_or in Hin as [Hin|Hin]; [now apply B|].
+  destruct Hin as [E|Hin]; [discriminate|].
+  destruct Hin as [E|Hin]; [discriminate|].
+  destruct Hin as [E|Hin]; [discriminate|].
+  apply in_app_or in Hin as [Hin|Hin]; [now apply C|].
+  destruct Hin as [E|[]]. discriminate.
+Qed.
+
+Lemma fastq_file_nocr rs : Forall FastqSpec.fq_ok rs -> ~ In CR (fastq_file rs).
+Proof.
+  intro H. unfold fastq_file. apply not_in_concat. apply Forall_map.
+  eapply Forall_impl; [|exact H]. intros r Hr. now apply fastq_write_nocr.
+Qed.
+
+Lemma crlf_fastq rs t : Forall FastqSpec.fq_ok rs ->
+  Fastq.decode (crlf (fastq_file rs)) t = Fastq.decode (fastq_file rs) t.
+Proof. intro H. apply crlf_fastq_any. now apply fastq_file_nocr. Qed.
+
+Lemma crlf_fastq_records rs : Forall FastqSpec.fq_ok rs ->
+  Fastq.decode (crlf (fastq_file rs)) TEOF = map Rec rs.
+Proof. intro H. rewrite (crlf_fastq rs TEOF H). now apply FastqProofsB.roundtrip. Qed.
+
+(* ================================================================== *)
+(* SAM                                                                  *)
+
+Lemma flat_map_cr {A} (f : bytes -> list A) ls :
+  Forall (fun l => f (l ++ [CR]) = f l) ls ->
+  flat_map f (map (fun l => l ++ [CR]) ls) = flat_map f ls.
+Proof.
+  induction 1 as [|l ls Hl _ IH]; [reflexivity|]. cbn [map flat_map]. now rewrite Hl, IH.
+Qed.
+
+(* any text none of whose LF-terminated lines ends in CR, either terminal *)
+Lemma crlf_sam_any o s t :
+  Forall (fun l => drop_cr l = l) (fst (rs_lines s)) ->
+  Sam.reader_header o (crlf s) t = Sam.reader_header o s t.
+Proof.
+  intro H. unfold Sam.reader_header. rewrite rs_lines_crlf.
+  destruct (rs_lines s) as [ls tail]. cbn [fst snd] in *.
+  f_equal. apply flat_map_cr. eapply Forall_impl; [|exact H].
+  intros l Hl. now apply SamProofsC.process_line_cr.
+Qed.
+
+Lemma sam_file_lines o hs rs :
+  Forall SamSpec.header_ok hs -> Forall (SamSpec.sam_ok o) rs ->
+  let ls := hs ++ map (SamProofsB.line o) rs in
+  sam_file o hs rs = concat (map (fun l => l ++ [LF]) ls)
+  /\ Forall (SamProofs.nosep LF) ls /\ Forall (fun l => drop_cr l = l) ls.
+Proof.
+  intros Hh Hr ls. split; [apply SamProofsC.file_text_lines|]. split.
+  - apply Forall_app. split.
+    + eapply Forall_impl; [|exact Hh]. intros h (_ & Hlf & _). now apply SamProofsC.not_in_nosep.
+    + apply Forall_map. eapply Forall_impl; [|exact Hr]. intros r Hok. now apply SamProofsB.line_nosep_lf.
+  - apply Forall_app. split.
+    + eapply Forall_impl; [|exact Hh]. now intros h (_ & _ & Hd).
+    + apply Forall_map. eapply Forall_impl; [|exact Hr]. intros r Hok.
+      apply SamProofs.drop_cr_nosep. now apply SamProofsB.line_nosep_cr.
+Qed.
+
+Lemma crlf_sam o hs rs t :
+  Forall SamSpec.header_ok hs -> Forall (SamSpec.sam_ok o) rs ->
+  Sam.reader_header o (crlf (sam_file o hs rs)) t = Sam.reader_header o (sam_file o hs rs) t.
+Proof.
+  intros Hh Hr. destruct (sam_file_lines o hs rs Hh Hr) as (E & Hlf & Hcr).
+  apply crlf_sam_any. rewrite E, (SamProofsC.rs_lines_lines _ Hlf). exact Hcr.
+Qed.
+
+Lemma crlf_sam_reader o hs rs t :
+  Forall SamSpec.header_ok hs -> Forall (SamSpec.sam_ok o) rs ->
+  Sam.reader o (crlf (sam_file o hs rs)) t = Sam.reader o (sam_file o hs rs) t.
+Proof. intros Hh Hr. unfold Sam.reader. now rewrite (crlf_sam o hs rs t Hh Hr). Qed.
+
+(* ================================================================== *)
+(* BED                                                                  *)
+
+Lemma do_line_cr n l : drop_cr l = l -> Bed.do_line n (l ++ [CR]) = Bed.do_line n l.
+Proof. intro H. unfold Bed.do_line. now rewrite drop_cr_snoc, H. Qed.
+
+Lemma dec_lines_map (f : bytes -> bytes) ls tail t :
+  Forall (fun l => forall n, Bed.do_line n (f l) = Bed.do_line n l) ls -> forall n,
+  Bed.dec_lines n (map f ls) tail t = Bed.dec_lines n ls tail t.
+Proof.
+  induction 1 as [|l ls Hl _ IH]; intro n; [reflexivity|].
+  cbn [map Bed.dec_lines]. rewrite (Hl n).
+  destruct (Bed.do_line n l); [apply IH | reflexivity | now rewrite IH].
+Qed.
+
+Lemma dec_lines_cr ls tail t : Forall (fun l => drop_cr l = l) ls -> forall n,
+  Bed.dec_lines n (map (fun l => l ++ [CR]) ls) tail t = Bed.dec_lines n ls tail t.
+Proof.
+  intro H. apply dec_lines_map. eapply Forall_impl; [|exact H].
+  intros l Hl n. now apply do_line_cr.
+Qed.
+
+Lemma crlf_bed_any s t :
+  Forall (fun l => drop_cr l = l) (fst (rs_lines s)) ->
+  Bed.decode (crlf s) t = Bed.decode s t.
+Proof.
+  intro H. unfold Bed.decode. rewrite rs_lines_crlf.
+  destruct (rs_lines s) as [ls tail]. cbn [fst snd] in *. now apply dec_lines_cr.
+Qed.
+
+Lemma crlf_bed bs w t : Forall BedSpec.bed_ok bs -> bed_file bs = Ok w ->
+  Bed.decode (crlf w) t = Bed.decode w t.
+Proof.
+  intros H Hw. unfold bed_file in Hw.
+  rewrite BedProofsC.write_file_text in Hw
+    by (eapply Forall_impl; [|exact H]; now intros b [A _]).
+  injection Hw as <-. apply crlf_bed_any. rewrite (BedProofsC.rs_lines_text bs H). cbn [fst].
+  apply Forall_map. eapply Forall_impl; [|exact H]. intros b Hb.
+  apply BedProofsC.drop_cr_nob. apply BedProofsB.line_nob; [exact Hb | discriminate | reflexivity].
+Qed.
+
+(* ================================================================== *)
+(* Newick                                                               *)
+
+Fixpoint names (t : Newick.tree) : list bytes :=
+  match t with Newick.Node n _ cs => n :: flat_map names cs end.
+
+Definition lf_free_names (t : Newick.tree) : Prop := Forall (fun n => ~ In LF n) (names t).
+
+Lemma dbl_quotes_in x s : In x (Newick.dbl_quotes s) -> In x s.
+Proof.
+  induction s as [|c s IH]; [intros []|]. cbn [Newick.dbl_quotes].
+  destruct (N.eqb_spec c 39) as [->|_].
+  - intros [<-|[<-|H]]; [now left | now left | right; now apply IH].
+  - intros [<-|H]; [now left | right; now apply IH].
+Qed.
+
+Lemma name_to_text_nolf s : ~ In LF s -> ~ In LF (Newick.name_to_text s).
+Proof.
+  intros H Hin. unfold Newick.name_to_text in Hin. destruct (existsb Newick.name_trigger s).
+  - destruct Hin as [E|Hin]; [discriminate|].
+    apply in_app_or in Hin as [Hin|[E|[]]]; [|discriminate].
+    apply H. now apply dbl_quotes_in.
+  - unfold Newick.map_byte in Hin. apply in_map_iff in Hin as [c [E Hc]].
+    destruct (c =? 32); [discriminate|]. apply H. now rewrite <- E.
+Qed.
+
+Lemma dist_text_nolf o d : (is_zeroF d = false -> NewickSpec.float_ok o d) ->
+  ~ In LF (if is_zeroF d then [] else 58 :: fmtF o d).
+Proof.
+  intros H. destruct (is_zeroF d); [intros []|].
+  destruct (H eq_refl) as (_ & _ & Hc). intros [E|Hin]; [discriminate|].
+  revert Hin. apply (clean_not_in _ _ _ Hc). unfold NewickSpec.delims. cbn. tauto.
+Qed.
+
+Lemma names_node n d cs : lf_free_names (Newick.Node n d cs) ->
+  ~ In LF n /\ Forall lf_free_names cs.
+Proof.
+  unfold lf_free_names. cbn [names]. intro H. inversion H as [|? ? Hn Hr]; subst.
+  split; [exact Hn|]. now apply NewickProofsC.Forall_flat_map' in Hr.
+Qed.
+
+Lemma newick_text_nolf o : forall t, NewickSpec.floats_ok o t -> lf_free_names t ->
+  ~ In LF (Newick.newick_text o t).
+Proof.
+  induction t as [nm d cs HF] using NewickProofs.tree_ind'. intros Hok Hnm.
+  apply NewickProofsC.floats_ok_node in Hok. destruct Hok as [Hd Hcs].
+  apply names_node in Hnm. destruct Hnm as [Hn Hns].
+  assert (HQ : Forall (fun c => ~ In LF (Newick.newick_text o c)) cs).
+  { rewrite Forall_forall in *. intros c Hc. apply (HF c Hc); [apply (Hcs c Hc) | apply (Hns c Hc)]. }
+  assert (Htail : ~ In LF (Newick.name_to_text nm ++ (if is_zeroF d then [] else 58 :: fmtF o d))).
+  { apply not_in_app; [now apply name_to_text_nolf | now apply dist_text_nolf]. }
+  destruct cs as [|c0 cr].
+  - rewrite NewickProofsC.newick_text_leaf. exact Htail.
+  - rewrite NewickProofsC.newick_text_inner. inversion HQ as [|? ? H0 HQ']; subst.
+    apply not_in_app; [|exact Htail].
+    intros [E|Hin]; [discriminate|]. revert Hin.
+    apply not_in_app; [exact H0|]. apply not_in_app; [|intros [E|[]]; discriminate].
+    clear - HQ'. induction HQ' as [|c l Hc _ IH]; [intros []|].
+    cbn [NewickProofsC.kids_rest]. intros [E|Hin]; [discriminate|]. revert Hin.
+    now apply not_in_app.
+Qed.
+
+Lemma marshal_nolf o t : NewickSpec.floats_ok o t -> lf_free_names t ->
+  ~ In LF (Newick.marshal o t).
+Proof.
+  intros Hok Hn. unfold Newick.marshal. apply not_in_app; [now apply newick_text_nolf|].
+  intros [E|[]]. discriminate.
+Qed.
+
+(* trees each followed by the separator [sep] *)
+Lemma newick_lines_seq o sep ts :
+  concat (map (fun t => Newick.marshal o t ++ sep) ts)
+  = NewickSpec.seq_text o (map (fun t => (t, sep)) ts).
+Proof.
+  induction ts as [|t ts IH]; [reflexivity|].
+  cbn [map concat NewickSpec.seq_text]. now rewrite IH, <- app_assoc.
+Qed.
+
+Lemma crlf_newick_file o ts :
+  Forall (NewickSpec.floats_ok o) ts -> Forall lf_free_names ts ->
+  crlf (newick_file o ts) = concat (map (fun t => Newick.marshal o t ++ [CR; LF]) ts).
+Proof.
+  intros Hok Hn. unfold newick_file. rewrite crlf_concat, map_map. f_equal.
+  apply map_ext_in. intros t Ht. rewrite crlf_app. f_equal.
+  rewrite Forall_forall in Hok, Hn. apply crlf_nolf. apply marshal_nolf; [now apply Hok | now apply Hn].
+Qed.
+
+Lemma newick_lines_decode o sep ts :
+  NewickSpec.ws_string sep -> Forall (NewickSpec.floats_ok o) ts ->
+  Newick.decode o (concat (map (fun t => Newick.marshal o t ++ sep) ts)) TEOF
+  = Ok (map (fun t => Rec (NewickSpec.norm t)) ts).
+Proof.
+  intros Hs Hok. rewrite newick_lines_seq.
+  assert (HF : Forall (fun p => NewickSpec.floats_ok o (fst p) /\ NewickSpec.ws_string (snd p))
+                      (map (fun t => (t, sep)) ts)).
+  { apply Forall_map. eapply Forall_impl; [|exact Hok]. intros t Ht. now split. }
+  pose proof (NewickProofsC.decode_seq o [] _ (Forall_nil _) HF) as H.
+  cbn [app] in H. etransitivity; [exact H|]. now rewrite map_map.
+Qed.
+
+Lemma crlf_newick o ts :
+  Forall (NewickSpec.floats_ok o) ts -> Forall lf_free_names ts ->
+  Newick.decode o (crlf (newick_file o ts)) TEOF = Newick.decode o (newick_file o ts) TEOF.
+Proof.
+  intros Hok Hn. rewrite (crlf_newick_file o ts Hok Hn).
+  rewrite (newick_lines_decode o [CR; LF] ts) by (try exact Hok; repeat constructor).
+  unfold newick_file.
+  rewrite (newick_lines_decode o [LF] ts) by (try exact Hok; repeat constructor).
+  reflexivity.
+Qed.
+
+(* CR LF (or any whitespace) as the separator between trees: no condition on
+   the names *)
+Lemma newick_separator_irrelevant o sep sep' ts :
+  NewickSpec.ws_string sep -> NewickSpec.ws_string sep' -> Forall (NewickSpec.floats_ok o) ts ->
+  Newick.decode o (concat (map (fun t => Newick.marshal o t ++ sep) ts)) TEOF
+  = Newick.decode o (concat (map (fun t => Newick.marshal o t ++ sep') ts)) TEOF.
+Proof.
+  intros Hs Hs' Hok. now rewrite (newick_lines_decode o sep ts Hs Hok), (newick_lines_decode o sep' ts Hs' Hok).
+Qed.
